@@ -1,5 +1,5 @@
 import RsslVerif.Lemmas.ElabExact
-import RsslVerif.Thm.C16
+import RsslVerif.Lemmas.Overload
 /-!
 # C03 — accepted programs elaborate to well-typed IR; ill-typed programs are rejected
 
@@ -11,7 +11,7 @@ All are universally quantified: any environment, any expression nesting, any typ
 namespace RsslVerif.Thm.C03
 open RsslVerif.Gen.RankTable RsslVerif.Gen.TypingTables RsslVerif.Model.Conv RsslVerif.Model.Overload
 open RsslVerif.Model.IrTyping RsslVerif.Model.Elab RsslVerif.Lemmas.ElabConv RsslVerif.Lemmas.Elab
-open RsslVerif.Lemmas.ElabForms RsslVerif.Lemmas.ElabExact
+open RsslVerif.Lemmas.ElabForms RsslVerif.Lemmas.ElabExact RsslVerif.Lemmas.Overload RsslVerif.Spec.Overload
 
 /-! ## `ImplicitConversion::find` -/
 
@@ -238,6 +238,21 @@ theorem rankCand_not_ranked {c : Cand} {ts : List ETy} (h : NotCallable c ts) (i
       · rename_i rs' hrs; exact absurd hrs (this rs')
     · simp
 
+/-- a selected overload is one of the candidates and was ranked, i.e. every argument converts to its parameter
+    (same statement and proof as `Thm.C16.selected_is_viable`; repeated here so that C03 depends only on the
+    tournament lemmas of `Lemmas/Overload`, not on C16's witness theorems about the current rank tables) -/
+theorem selected_is_ranked {cands : List Cand} {args : List ETy} {i : Nat}
+    (h : resolve cands args = .selected i) : ∃ c ∈ cands, ∃ rc, rankCand args c = .ranked c.id rc := by
+  rcases resolve_cases cands args with hp | hr
+  · rw [hp] at h; simp at h
+  · rw [hr] at h
+    obtain ⟨rc, hf⟩ := resolveRanked_selected h
+    have hm : (i, rc) ∈ rankedList cands args :=
+      winners_subset (finals_subset (by rw [hf]; exact List.mem_cons_self))
+    obtain ⟨c, hc, hrc⟩ := mem_rankedList.mp hm
+    have hid := rankCand_id hrc
+    exact ⟨c, hc, rc, by rw [hrc, hid]⟩
+
 /-- **Calls.**  If no function of the called name can take the arguments (each one has the wrong number of
     parameters or a parameter some argument does not convert to), the call is never accepted. -/
 theorem elab_rejects_call {Γ : Env} {dbg : Bool} {name : Nat} {args : SArgs} {args' : IArgs} {ts : List ETy}
@@ -256,7 +271,7 @@ theorem elab_rejects_call {Γ : Env} {dbg : Bool} {name : Nat} {args : SArgs} {a
       · simp at hc
       · simp at hc
       · rename_i id hsel
-        obtain ⟨c, hmem, _, rc, hv⟩ := RsslVerif.Thm.C16.selected_is_viable hsel
+        obtain ⟨c, hmem, rc, hv⟩ := selected_is_ranked hsel
         exact rankCand_not_ranked (hn c hmem) _ _ hv
 
 /-- wrong number of arguments: never accepted -/
